@@ -329,9 +329,7 @@ theorem write_points_some {r : RotCfg}
 theorem write_points {r : RotCfg}
     (hB : r.naming = .numbersDirect ∨ r.naming = .timestampsDirect) (hc : r.cleanup = none)
     (s : St) (W : List Nat) (lo : Nat) (b : List Nat) (now : Nat) (hI : Inv2 r lo s W)
-    (hcap : s.cfg.cap = none) (hlo : lo ≤ now)
-    (hg : r.naming = .timestampsDirect → s.act = none → s.cfg.append = true →
-      NewestIsBase s.dir) :
+    (hcap : s.cfg.cap = none) (hlo : lo ≤ now) :
     WritePoints r.naming now W b (stepT s (.write b) now).2 := by
   obtain ⟨hrot, hI⟩ := hI
   simp only [stepT]
@@ -345,7 +343,7 @@ theorem write_points {r : RotCfg}
     rw [hact] at hI
     obtain ⟨L, hd, hW, hL⟩ := hI
     obtain ⟨s0, act0, a0, i1, i2, i3, _, i4, i5, i6, _⟩ :=
-      init_inv2 s r now lo W L hrot hB hc hd hW hL hlo (fun hnm => hg hnm hact)
+      init_inv2 s r now lo W L hrot hB hc hd hW hL hlo
     obtain ⟨e1, e2⟩ := initStateT_spec s r now hrot hB hc
     have j2 : (initState s now noFaults).1 = s0 := by rw [i1]
     rw [j2] at e1 e2
@@ -492,19 +490,6 @@ theorem runOps_inactive {r : RotCfg}
       rw [hs] at hn ⊢
       exact ih s hrot hact (fun o' ho' => hp o' (by simp [ho'])) hn
 
-/-- for a plain history started on an inactive state the guard only concerns the start
-    directory -/
-theorem guardFrom_of_static {r : RotCfg}
-    (hB : r.naming = .numbersDirect ∨ r.naming = .timestampsDirect) (hc : r.cleanup = none)
-    (s : St) (ops : List (Op × Nat × Faults)) (hrot : s.cfg.rot = some r) (hact : s.act = none)
-    (hp : ∀ o ∈ ops, o.1.plain = true ∧ o.2.2 = noFaults)
-    (hg : s.cfg.append = true → NewestIsBase s.dir) : GuardFrom s ops := by
-  intro pre b now fl post hops hn happ
-  have := runOps_inactive hB hc pre s hrot hact
-    (fun o ho => hp o (by rw [hops]; simp [ho])) hn
-  rw [this] at happ ⊢
-  exact hg happ
-
 theorem flushed_plain : ∀ (ops : List (Op × Nat × Faults)), (∀ o ∈ ops, o.1.plain = true) →
     flushedBeforeRestart ops = true
   | [], _ => rfl
@@ -534,26 +519,22 @@ theorem run_inv2_bound {r : RotCfg}
       (∀ o ∈ ops, o.1.usesClock = true → lo ≤ o.2.1) → Monotone ops →
       flushedBeforeRestart ops = true →
       (∀ o rest, ops = o :: rest → isRestart o.1 = true → Quiet s) →
-      (r.naming = .timestampsDirect → GuardFrom s ops) →
       lo ≤ B → (∀ o ∈ ops, o.1.usesClock = true → o.2.1 ≤ B) →
       ∃ lo', lo' ≤ B ∧ Inv2 r lo' (runOps s ops) (W ++ written ops) := by
   intro ops
   induction ops with
   | nil =>
-    intro lo s W hI _ _ _ _ _ _ hb _
+    intro lo s W hI _ _ _ _ _ hb _
     exact ⟨lo, hb, by simpa [written, records, runOps] using hI⟩
   | cons o ops ih =>
-    intro lo s W hI hp hlo hm hf hq hg hb hB'
+    intro lo s W hI hp hlo hm hf hq hb hB'
     obtain ⟨hm1, hm2⟩ := monotone_tail hm
     obtain ⟨hp1, hp2⟩ := hp o (by simp)
     have hstep := step_inv2 hB hc s W lo o.1 o.2.1 hI hp1 (hlo o (by simp)) (hq o ops rfl)
-      (fun hnm b hb hact happ => by
-        have := hg hnm [] b o.2.1 o.2.2 ops (by rw [← hb]; rfl)
-        exact this hact happ)
     have e1 : runOps s (o :: ops) = runOps (step s o.1 o.2.1 noFaults).1 ops := by
       rw [← hp2]; rfl
     rw [e1, written_cons, ← List.append_assoc]
-    refine ih _ _ _ hstep.1 (fun o' ho' => hp o' (by simp [ho'])) ?_ hm1 ?_ ?_ ?_ ?_
+    refine ih _ _ _ hstep.1 (fun o' ho' => hp o' (by simp [ho'])) ?_ hm1 ?_ ?_ ?_
       (fun o' ho' => hB' o' (by simp [ho']))
     · intro o' ho' hu'
       by_cases hu : o.1.usesClock = true
@@ -570,19 +551,11 @@ theorem run_inv2_bound {r : RotCfg}
       rcases hf.1 with h | h
       · rw [hr] at h; cases h
       · exact hstep.2 h
-    · intro hnm pre b now fl post hops
-      have := hg hnm (o :: pre) b now fl post (by rw [hops]; rfl)
-      have e2 : runOps s (o :: pre) = runOps (step s o.1 o.2.1 noFaults).1 pre := by
-        rw [← hp2]; rfl
-      rw [e2] at this
-      exact this
     · by_cases hu : o.1.usesClock = true
       · rw [if_pos hu]; exact hB' o (by simp) hu
       · rw [if_neg hu]; exact hb
 
 /-! ### the state before the victim operation -/
-
-theorem newestIsBase_nil : NewestIsBase [] := fun e he => by cases he
 
 theorem state_before_B (cfg : Cfg) (hc : CfgMB cfg) (r : RotCfg) (hrot : cfg.rot = some r)
     (ops : List (Op × Nat × Faults)) (o : Op × Nat × Faults) (hp : PlainHistory (ops ++ [o]))
@@ -608,8 +581,6 @@ theorem state_before_B (cfg : Cfg) (hc : CfgMB cfg) (r : RotCfg) (hrot : cfg.rot
     (fun o' rest hops hr => by
       have := not_restart_of_plain (hpl' o' (by rw [hops]; simp)).1
       rw [hr] at this; cases this)
-    (fun _ => guardFrom_of_static hB hcl' (init cfg []) ops hrot rfl hpl'
-      (fun _ => newestIsBase_nil))
     (Nat.zero_le _) hbound
   refine ⟨lo, h1, by simpa using h2, (run_plain_cfg hB hcl' ops (init cfg []) hrot hpl').1, ?_⟩
   exact runOps_inactive hB hcl' ops (init cfg []) hrot rfl hpl'
@@ -638,7 +609,6 @@ theorem crash_dirs_described_B (cfg : Cfg) (hc : CfgMB cfg) (hcap : cfg.cap = no
   rcases hop with ⟨b, rfl⟩ | rfl
   · obtain ⟨tr0, p1, p2, e, q0, _, q1, _, q2⟩ :=
       write_points hB (hcl r hrot) _ (written ops) lo b now h2 hcap' h1
-        (fun _ hact _ => by rw [h4 hact]; exact newestIsBase_nil)
     intro p hp
     rw [e] at hp
     simp only [List.mem_append, List.mem_cons, List.not_mem_nil, or_false] at hp
@@ -668,7 +638,6 @@ theorem crash_safe_B (cfg : Cfg) (hc : CfgMB cfg) (hcap : cfg.cap = none)
   have hcap' : (runOps (init cfg []) ops).cfg.cap = none := by rw [h3]; exact hcap
   obtain ⟨tr0, p1, p2, e, q0, n1, q1, n2, q2⟩ :=
     write_points hc.2.choose_spec.2 (hc.1 _ hc.2.choose_spec.1) _ (written ops) lo b now h2 hcap' h1
-      (fun _ hact _ => by rw [h4 hact]; exact newestIsBase_nil)
   refine ⟨?_, tr0, p1, p2, e, fun p hp => (q0 p hp).readAll, n1, q1.readAll, n2, q2.readAll⟩
   intro p hp
   rw [e] at hp
@@ -699,7 +668,6 @@ theorem restart_described {r : RotCfg}
     (hB : r.naming = .numbersDirect ∨ r.naming = .timestampsDirect) (hc : r.cleanup = none)
     (d : Dir) (W : List Nat) (now : Nat) (hD : Described r.naming now d W) (c : Cfg)
     (hcrot : c.rot = some r)
-    (hg : r.naming = .timestampsDirect → c.append = true → NewestIsBase d)
     (ops2 : List (Op × Nat × Faults)) (hp2 : PlainHistory ops2)
     (hclk : ∀ o ∈ ops2, o.1.usesClock = true → now ≤ o.2.1) :
     (viewFiles (runOps (init c d) ops2)).flatten = W ++ written ops2 := by
@@ -709,21 +677,19 @@ theorem restart_described {r : RotCfg}
     (fun o' rest hops hr => by
       have := not_restart_of_plain (hp2.1 o' (by rw [hops]; simp)).1
       rw [hr] at this; cases this)
-    (fun hnm => guardFrom_of_static hB hc (init c d) ops2 hcrot rfl hp2.1 (hg hnm))
   exact hI'.view
 
 /-- **Restart from any crash directory.** For every recorded point `p` of the victim operation
     and every configuration `c` of the new logger with the same rotation configuration (append
-    on or off, any capacity; for `timestampsDirect` with `append` under the guard that the
-    newest stamp of `p.dir` has no `.restart-N` sibling, finding D22), the new logger continues
-    the stream: nothing that is on disk is lost or reordered, every new record follows. -/
+    on or off, any capacity; no guard for `timestampsDirect` with `append` since the `fix:` of
+    finding D22), the new logger continues the stream: nothing that is on disk is lost or
+    reordered, every new record follows. -/
 theorem restart_from_crash_B (cfg : Cfg) (hc : CfgMB cfg) (hcap : cfg.cap = none) (r : RotCfg)
     (hrot : cfg.rot = some r) (ops : List (Op × Nat × Faults)) (op : Op) (now : Nat)
     (hop : (∃ b, op = .write b) ∨ op = .rotate)
     (hp : PlainHistory (ops ++ [(op, now, noFaults)]))
     (p : Pt) (hpm : p ∈ (stepT (runOps (init cfg []) ops) op now).2)
     (c : Cfg) (hcrot : c.rot = cfg.rot)
-    (hg : r.naming = .timestampsDirect → c.append = true → NewestIsBase p.dir)
     (ops2 : List (Op × Nat × Faults)) (hp2 : PlainHistory ops2)
     (hclk : ∀ o ∈ ops2, o.1.usesClock = true → now ≤ o.2.1) :
     (viewFiles (runOps (init c p.dir) ops2)).flatten = readAll p.dir ++ written ops2 := by
@@ -733,9 +699,9 @@ theorem restart_from_crash_B (cfg : Cfg) (hc : CfgMB cfg) (hcap : cfg.cap = none
   have hcl : r.cleanup = none := hc.1 r hrot
   rcases crash_dirs_described_B cfg hc hcap r hrot ops op now hop hp p hpm with h | h
   · rw [h.readAll]
-    exact restart_described hB hcl p.dir _ now h c (by rw [hcrot, hrot]) hg ops2 hp2 hclk
+    exact restart_described hB hcl p.dir _ now h c (by rw [hcrot, hrot]) ops2 hp2 hclk
   · rw [h.readAll]
-    exact restart_described hB hcl p.dir _ now h c (by rw [hcrot, hrot]) hg ops2 hp2 hclk
+    exact restart_described hB hcl p.dir _ now h c (by rw [hcrot, hrot]) ops2 hp2 hclk
 
 /-- the same for the directory `crashDir` returns -/
 theorem crashDir_safe_B (cfg : Cfg) (hc : CfgMB cfg) (hcap : cfg.cap = none)
@@ -807,7 +773,7 @@ example :
     readAll ((stepT (runOps (init cCfgT []) cOps) (.write [4]) 5).2[3]'(by decide)).dir ++
       written [(.write [7], 5, noFaults), (.write [8], 6, noFaults)] :=
   restart_from_crash_B cCfgT cCfgT_ok rfl _ rfl cOps (.write [4]) 5 (Or.inl ⟨_, rfl⟩) cOps_plain
-    _ (List.getElem_mem _) cCfgT rfl (fun _ h => by cases h) _
+    _ (List.getElem_mem _) cCfgT rfl _
     (by unfold PlainHistory Monotone; decide) (by decide)
 
 example :
@@ -824,7 +790,7 @@ example :
       decide)).dir ++ written [(.write [7], 5, noFaults), (.write [8], 6, noFaults)] :=
   restart_from_crash_B (cCfgN false none) (cCfgN_ok _ _) rfl _ rfl cOps (.write [4]) 5
     (Or.inl ⟨_, rfl⟩) (by unfold PlainHistory Monotone; decide)
-    _ (List.getElem_mem _) (cCfgN true (some 8)) rfl (fun h => by cases h) _
+    _ (List.getElem_mem _) (cCfgN true (some 8)) rfl _
     (by unfold PlainHistory Monotone; decide) (by decide)
 
 example :
